@@ -690,6 +690,7 @@ def run(ctx: Ctx):
     import extra_oracles as _xo
     _xo.api_history_and_dtype(ctx, "C03")
     _xo.c03_k_spellings(ctx, o3)
+    _xo.c03_half_turn_quaternions(ctx, o3)
     ctx.notes["rule"] = ("angle sets: Euler grid of all multiples of π/2 in [-2π,2π]³ (quick: 180 sampled + β∈{0,±π} rows + corners), uniform "
                          "random in (-π,π)³, large |angle|≤40, strata β∈{0,±π,1e-9,π-1e-7,1e-4}; l=0..11 (quick: 0-6,8,11), both parities; "
                          "Irreps: fixed list with repetitions / zero multiplicities / unsorted / empty + random; every clause under "
